@@ -590,7 +590,17 @@ class Gen:
                 out.append(cmd("scan", [h, r.below(n + 2), r.below(4)]))
             elif op == "find":
                 k = r.choice([2, 2, 3, 4])
-                out.append(cmd("find", [h, r.below(n + 2)], [r.below(4) for _ in range(k)]))
+                if n >= k + 2 and r.chance(1, 2):
+                    # an occurrence that starts INSIDE a partial one: a a .. a b searched in a a a .. a b
+                    a = r.below(4)
+                    b = (a + 1 + r.below(3)) % 4
+                    o = r.below(n - k)
+                    for j in range(k):
+                        out.append(cmd("poke", [h, o + j, a]))
+                    out.append(cmd("poke", [h, o + k, b]))
+                    out.append(cmd("find", [h, r.below(o + 1)], [a] * (k - 1) + [b]))
+                else:
+                    out.append(cmd("find", [h, r.below(n + 2)], [r.below(4) for _ in range(k)]))
             elif op == "compare":
                 g = r.choice(lv)
                 out.append(cmd("compare", [h, r.below(n + 2), g]))
